@@ -273,3 +273,19 @@ claim("C15",
       "std::path::Path, walkdir and the kernel's path resolution are modelled, not verified." + COMMON_NOTE,
       "Coq proof (tree induction on the Finder model) + directory-layout campaign on the real binary",
       "DESIGN.md section 6, C15")
+
+
+claim("C09",
+      "PARTIAL. Theorems (Coq) about MODELS of format_args! and of the log macro arms: C09_token_has_no_brace (the "
+      "inserted token, built from the translated format pieces, contains no brace for any number), "
+      "C09_message_style_record (prefixing a format string with it yields the same record -- level, target, "
+      "key-values -- with the token prefixed to the formatted message, and compiles iff the original did), "
+      "C09_documented_regex_extracts (the documented regex, translated from the user guide, extracts exactly the "
+      "assigned number), C09_structured_style_record (adding ref = N in front yields the same record plus that "
+      "key-value). That rustc and the real log macros agree with these models is NOT proved: it is validated by "
+      "compiling and running generated programs over the macro grammar before and after an edit by the real binary, "
+      "in both styles, and comparing the record streams.",
+      "rustc, macro_rules and the log crate are outside the proof; the evidence carries programs / records compared."
+      + COMMON_NOTE,
+      "Coq proof on a format-string / macro-arm model + translation validation with rustc and the log crate",
+      "DESIGN.md section 6, C09")
